@@ -32,7 +32,25 @@ its array parameters given a length.  Integer variables then hold translation-ti
 `p - q`, `p < q`, `p[i]`, `*p` are resolved to cells, memcpy/memmove/memset-style helpers with constant sizes become cell
 copies.  Every cell of the declared arrays is a binder (in declaration order) and every cell of every non-const array is an
 output (in order); an access outside the declared length is an error.  A branch on data whose arms leave an integer or a
-pointer in different states, a loop whose condition depends on data, or `break`/`continue` are outside the subset."""
+pointer in different states, a loop whose condition depends on data, or `break`/`continue` are outside the subset.
+
+Version 4 addition (fuelled loops): `f@fuel` translates f with loops whose trip count is NOT known at translation time.
+Such a loop (`for`/`while`/`do` whose condition contains a real-valued operand, or that has no condition) becomes
+
+  Fixpoint gen_f_loop<k> {T} (O : NumOps T) (fuel : nat) <live state : T> {struct fuel} : option (<result tuple>) :=
+    match fuel with 0%nat => None | S fuel0 => <one pass> end
+
+where one pass is the loop test and body; at the end of the body (and at `continue`) the increment and - for `do` - the
+test are evaluated and the Fixpoint is re-entered with fuel0; `break` and a false test continue with the statements after
+the loop (translated inside the Fixpoint), `goto <top-level label>` and `return` leave the function from inside the
+Fixpoint.  The live state is every real-valued location known at the loop head (members of struct parameters in
+declaration order, array cells, then parameters and locals in declaration order) that the pass or what follows can read;
+locations that are only handed on unchanged or always overwritten first are dropped.  gen_f takes `(fuel : nat)` in front
+of its inputs and returns `option` of the usual result tuple: `None` means some loop ran out of fuel (a sequence of loops
+shares the fuel: it bounds the total number of passes), `Some r` is a run of the C function.  Outside the subset
+(Unsupported): a data-dependent loop nested in another, a pass that changes an integer or a pointer, `break`/`continue`
+inside a loop or `switch` nested in the fuelled loop, a `goto` to a label that is being executed (backward jump), a first
+read of an input array cell inside a loop, calls to fuelled functions.  Without `@fuel` nothing changes."""
 import json
 import math
 import re
@@ -204,6 +222,15 @@ class Fn:
         self.steps = 0
         self.inline_depth = 0
         self.inline_stack = []
+        self.fuel_mode = False      # `f@fuel`: data-dependent loops become Fixpoints on fuel
+        self.fuel_var = "fuel"      # name of the fuel variable in scope of the code being emitted
+        self.loop_ctx = None        # inside the pass of a fuelled loop: {"break": k, "continue": k}
+        self.in_fix = 0
+        self.n_loops = 0
+        self.fix_texts = []         # finished Fixpoint texts (dependency order), with @@..@@ markers
+        self.loop_used = {}         # loop number -> set of live state positions
+        self.loop_params = {}       # loop number -> parameter names
+        self.goto_active = []
 
     def use_extern(self, name):
         if name not in self.externs:
@@ -280,8 +307,16 @@ class Fn:
         return base if n == 0 and base not in ("O", "T", "fun", "let", "in", "if", "then", "else", "at", "as") else "%s_%d" % (base, n)
 
     def where(self, n):
+        n = n.get("_of", n)         # synthetic loop node: the statement it was made of
         loc = n.get("loc", {}) or n.get("range", {}).get("begin", {})
         line = loc.get("line") or loc.get("expansionLoc", {}).get("line") or loc.get("spellingLoc", {}).get("line")
+        if line is None:
+            # clang prints "line" only where it differs from the previous location it printed: recover it by replaying the
+            # locations of the function in dump order
+            if not getattr(self, "_lines_done", False):
+                self._lines_done = True
+                annotate_lines(self.node)
+            line = n.get("_line")
         return "%s:%s" % (self.name, line)
 
     # ---------------------------------------------------------------- lvalues
@@ -348,6 +383,8 @@ class Fn:
         if loc in env:
             return env[loc]
         if loc[0] == "arr" and loc[1] in self.array_params:
+            if self.in_fix:
+                raise Unsupported("first read of the input cell %s[%d] inside a fuelled loop at %s" % (loc[1], loc[2], self.where(n)))
             v = self.fresh("%s_%d_in" % (loc[1], loc[2]))
             self.reads.append((loc[1], loc[2], v))
             env[loc] = v
@@ -738,9 +775,19 @@ class Fn:
                     self.assign(("var", d["name"]), v, env)
             return self.block(rest, env, k)
         if kind in ("ForStmt", "WhileStmt", "DoStmt"):
-            if not self.alen and not self.spec:
+            if not self.alen and not self.spec and not self.fuel_mode:
                 raise Unsupported("loop at %s (only in a specialised translation f@...)" % self.where(s))
             parts = s["inner"]
+            if self.fuel_mode and self.data_loop(s):
+                # trip count not known at translation time: a Fixpoint on fuel (version 4)
+                if kind == "ForStmt":
+                    init, _cv, cond, inc, body = (parts + [{}] * 5)[:5]
+                elif kind == "WhileStmt":
+                    init, cond, inc, body = {}, parts[0], {}, parts[1]
+                else:
+                    init, cond, inc, body = {}, parts[1], {}, parts[0]
+                floop = {"kind": "_FuelLoop", "cond": cond, "inc": inc, "body": body, "do": kind == "DoStmt", "_of": s}
+                return self.block(([init] if init.get("kind") else []) + [floop] + rest, env, k)
             if kind == "ForStmt":
                 init, _cv, cond, inc, body = (parts + [{}] * 5)[:5]
                 loop = {"kind": "_Loop", "cond": cond, "inc": inc, "body": body, "loc": s.get("loc", {}), "range": s.get("range", {})}
@@ -750,7 +797,11 @@ class Fn:
                 return self.block([loop] + rest, env, k)
             loop = {"kind": "_Loop", "cond": parts[1], "inc": {}, "body": parts[0], "loc": s.get("loc", {}), "range": s.get("range", {})}
             return self.block([parts[0], loop] + rest, env, k)
+        if kind == "_FuelLoop":
+            return self.fuel_loop(s, rest, env, k)
         if kind == "_Loop":
+            if self.loop_ctx is not None and self.contains(s["body"], ("BreakStmt", "ContinueStmt")):
+                raise Unsupported("break/continue in a loop nested in a fuelled loop at %s" % self.where(s))
             self.steps += 1
             if self.steps > MAX_UNROLL:
                 raise Unsupported("more than %d loop iterations at %s" % (MAX_UNROLL, self.where(s)))
@@ -761,7 +812,9 @@ class Fn:
                 return self.block([s["body"]] + ([s["inc"]] if s["inc"].get("kind") else []) + [s] + rest, env, k)
             return self.block(rest, env, k)
         if kind in ("BreakStmt", "ContinueStmt"):
-            raise Unsupported("%s at %s" % (kind, self.where(s)))
+            if self.loop_ctx is None:
+                raise Unsupported("%s at %s" % (kind, self.where(s)))
+            return self.loop_ctx["break" if kind == "BreakStmt" else "continue"](env)      # the statements after it are dead
         if kind == "LabelStmt":
             return self.block(s.get("inner", []) + rest, env, k)
         if kind == "SwitchStmt":
@@ -795,6 +848,8 @@ class Fn:
                     if st.get("kind") == "BreakStmt":
                         break
                     sel.append(st)
+            if self.loop_ctx is not None and any(self.contains(st, ("BreakStmt",)) for st in sel):
+                raise Unsupported("break below the top level of a switch nested in a fuelled loop at %s" % self.where(s))
             return self.block(sel + rest, env, k)
         if kind == "GotoStmt":
             # forward jump to a label among the top-level statements of the function body (the `exit:` / `fail:` idiom):
@@ -802,7 +857,19 @@ class Fn:
             target = s.get("targetLabelDeclId")
             for i, t in enumerate(self.top_stmts):
                 if t.get("kind") == "LabelStmt" and t.get("declId") == target:
-                    return self.block(self.top_stmts[i:], env, self.k_end)
+                    if not self.fuel_mode:
+                        return self.block(self.top_stmts[i:], env, self.k_end)
+                    # fuelled translation: the jump leaves every loop (the label is at the top level of the function); a jump
+                    # to a label whose tail is being translated would be a backward jump, i.e. a loop written with goto
+                    if target in self.goto_active:
+                        raise Unsupported("backward goto at %s" % self.where(s))
+                    saved_ctx, self.loop_ctx = self.loop_ctx, None
+                    self.goto_active.append(target)
+                    try:
+                        return self.block(self.top_stmts[i:], env, self.k_end)
+                    finally:
+                        self.goto_active.pop()
+                        self.loop_ctx = saved_ctx
             raise Unsupported("goto to a label that is not at the top level of the function at %s" % self.where(s))
         if kind == "ReturnStmt" and self.inline_depth > 0:
             inner = s.get("inner", [])
@@ -852,6 +919,13 @@ class Fn:
         for s in stmts:
             if s["kind"] in ("ReturnStmt", "GotoStmt"):
                 return True
+            if self.fuel_mode:
+                # fuelled translation: break/continue leave the normal flow too, and a fuelled loop carries the rest of the
+                # function inside its Fixpoint (an over-approximation only duplicates the continuation)
+                if s["kind"] in ("BreakStmt", "ContinueStmt") and self.loop_ctx is not None:
+                    return True
+                if s["kind"] == "_FuelLoop" or (s["kind"] in ("ForStmt", "WhileStmt", "DoStmt") and self.data_loop(s)):
+                    return True
             if self.returns([c for c in s.get("inner", []) if isinstance(c, dict) and ("Stmt" in c.get("kind", ""))]):
                 return True
         return False
@@ -887,14 +961,202 @@ class Fn:
         if rv is not None:
             outs.append(rv)
         self.n_out = len(outs)
+        if self.fuel_mode:
+            return "Some " + ("tt" if not outs else "(" + ", ".join(outs) + ")" if len(outs) > 1 else outs[0])
         if not outs:
             return "tt"
         return "(" + ", ".join(outs) + ")" if len(outs) > 1 else outs[0]
+
+    # ---------------------------------------------------------------- fuelled loops (version 4)
+    FUEL_RESERVED = {"fuel": 1, "fuel0": 1, "S": 1, "Some": 1, "None": 1}
+    MARK = re.compile(r"@@A(\d+):(\d+):(.*?)@@")
+
+    def contains(self, n, kinds):
+        if isinstance(n, dict):
+            if n.get("kind") in kinds:
+                return True
+            return any(self.contains(c, kinds) for c in n.get("inner", []))
+        return False
+
+    def has_real(self, n):
+        if isinstance(n, dict):
+            q = n.get("type", {}).get("qualType", "")
+            if q and is_real_type(q.split("':'")[0].strip("'")):
+                return True
+            return any(self.has_real(c) for c in n.get("inner", []))
+        return False
+
+    def data_loop(self, s):
+        """the trip count of this loop is not known at translation time: no condition, or one with a real-valued operand"""
+        parts, kd = s["inner"], s["kind"]
+        cond = (parts + [{}] * 5)[2] if kd == "ForStmt" else parts[0] if kd == "WhileStmt" else parts[1]
+        return not cond.get("kind") or self.has_real(cond)
+
+    def decl_order(self):
+        if not hasattr(self, "_decl_order"):
+            names = [c.get("name", "_") for c in self.node.get("inner", []) if c["kind"] == "ParmVarDecl"]
+
+            def walk(n):
+                if isinstance(n, dict):
+                    if n.get("kind") == "VarDecl" and n.get("name") not in names:
+                        names.append(n.get("name"))
+                    for c in n.get("inner", []):
+                        walk(c)
+            walk([c for c in self.node["inner"] if c["kind"] == "CompoundStmt"][0])
+            self._decl_order = names
+        return self._decl_order
+
+    def state_order(self, env):
+        """canonical order of the locations of env: members of the struct parameters (declaration order), other members,
+        array cells, then parameters and locals in declaration order"""
+        locs, seen = [], set()
+
+        def add(l):
+            if l in env and l not in seen:
+                seen.add(l)
+                locs.append(l)
+        for pname, _rec, fields in self.structs:
+            for path, _kind in fields:
+                add(("mem", pname, path))
+        for l in list(env):
+            if l[0] == "mem":
+                add(l)
+        for l in sorted((l for l in env if l[0] == "arr"), key=lambda l: (l[1], l[2])):
+            add(l)
+        for nm in self.decl_order():
+            add(("var", nm))
+        for l in list(env):
+            add(l)
+        return locs
+
+    def loop_call(self, kk, fname, fuel, args):
+        return "%s O@@EXTA@@ %s%s" % (fname, fuel, "".join("@@A%d:%d:%s@@" % (kk, i, a) for i, a in enumerate(args)))
+
+    def fuel_loop(self, s, rest, env, k):
+        """s: {"cond", "inc", "body", "do"}; emits the Fixpoint of the loop (the statements `rest` and the continuation k that
+        follow the loop are translated inside it) and returns the call that enters it"""
+        at = self.where(s)
+        if self.loop_ctx is not None:
+            raise Unsupported("data-dependent loop nested in another one at %s" % at)
+        if self.inline_depth > 0:
+            raise Unsupported("data-dependent loop in an inlined callee at %s" % at)
+        self.n_loops += 1
+        kk = self.n_loops
+        fname = "gen_%s_loop%d" % (self.name, kk)
+        locs = [l for l in self.state_order(env) if isinstance(env[l], str)]
+        consts = dict((l, v) for l, v in env.items() if not isinstance(v, str))
+        pre = self.flush_lines()
+        call = self.loop_call(kk, fname, self.fuel_var, [env[l] for l in locs])
+        cond, inc, body = s["cond"], s["inc"], s["body"]
+        saved = (self.counter, self.fuel_var, self.lines, self.loop_ctx)
+        self.counter, self.fuel_var, self.lines = dict(self.FUEL_RESERVED), "fuel0", []
+        fenv, params = dict(consts), []
+        for l in locs:
+            nm = self.fresh(l[1] if l[0] == "var" else "%s_%s" % (l[1], l[2]))
+            params.append(nm)
+            fenv[l] = nm
+        entry = set(fenv)
+
+        def same(v, w):
+            if isinstance(v, IntConst):
+                return isinstance(w, IntConst) and v.v == w.v
+            return v == w
+
+        def recurse(e):
+            for l, v in consts.items():
+                if not same(v, e.get(l)):
+                    raise Unsupported("a pass of the loop at %s changes the integer or pointer %s" % (at, ".".join(str(x) for x in l[1:])))
+            for l in e:
+                if l not in entry and l[0] == "arr" and l[1] in self.array_params:
+                    raise Unsupported("a pass of the loop at %s writes the new cell %s[%d]" % (at, l[1], l[2]))
+            args = []
+            for l in locs:
+                v = e.get(l)
+                if v is None or isinstance(v, Ptr):
+                    raise Unsupported("a pass of the loop at %s leaves %s without a real value" % (at, l[1]))
+                args.append(self.real(v))
+            return self.flush(self.loop_call(kk, fname, "fuel0", args))
+
+        def outside(thunk):
+            saved_ctx, self.loop_ctx = self.loop_ctx, None
+            try:
+                return thunk()
+            finally:
+                self.loop_ctx = saved_ctx
+
+        def k_rest(e):                      # the test is false, or `break`: the statements after the loop
+            return outside(lambda: self.block(rest, e, k))
+
+        def test(e, k_true):                # evaluate the condition in e: true -> k_true, false -> after the loop
+            c = self.expr(cond, e) if cond.get("kind") else IntConst(1)
+            if isinstance(c, IntConst):
+                return k_true(e) if c.v else k_rest(e)
+            pre2 = self.flush_lines()
+            t = self.sub(lambda: k_true(dict(e)))
+            r = self.sub(lambda: k_rest(dict(e)))
+            return pre2 + "if %s then (%s) else (%s)" % (self.boolean(c), t, r)
+
+        def k_next(e):                      # end of the body, or `continue`
+            def go():
+                if inc.get("kind"):
+                    self.expr(inc, e)
+                return test(e, recurse) if s["do"] else recurse(e)
+            return outside(go)
+
+        self.loop_ctx = {"break": k_rest, "continue": k_next}
+        self.in_fix += 1
+        try:
+            if s["do"]:
+                term = self.block([body], fenv, k_next)
+            else:
+                term = test(fenv, lambda e: self.with_ctx({"break": k_rest, "continue": k_next}, lambda: self.block([body], e, k_next)))
+        finally:
+            self.in_fix -= 1
+            self.counter, self.fuel_var, self.lines, self.loop_ctx = saved
+        # live state: a parameter is kept when the pass reads it other than to hand it on to a position that is dropped
+        own = [(int(m.group(2)), m.group(3)) for m in self.MARK.finditer(term) if int(m.group(1)) == kk]
+        rest_text = self.MARK.sub(lambda m: (" " + m.group(3) + " ") if int(m.group(1)) != kk and int(m.group(2)) in self.loop_used[int(m.group(1))] else " ", term)
+        occurs = lambda nm, txt: re.search(r"(?<![\w'])%s(?![\w'])" % re.escape(nm), txt) is not None
+        used = set(i for i, nm in enumerate(params) if occurs(nm, rest_text))
+        changed = True
+        while changed:
+            changed = False
+            for pos, arg in own:
+                if pos in used:
+                    for i, nm in enumerate(params):
+                        if i not in used and occurs(nm, arg):
+                            used.add(i)
+                            changed = True
+        self.loop_used[kk] = used
+        self.loop_params[kk] = params
+        self.fix_texts.append("Fixpoint %s {T : Type} (O : NumOps T)@@EXTB@@ (fuel : nat)@@PARS%d@@ {struct fuel} : @@RTY@@ :=\n"
+                              "    match fuel with\n    | 0%%nat => None\n    | S fuel0 =>\n    %s\n    end." % (fname, kk, term))
+        return pre + call
+
+    def with_ctx(self, ctx, thunk):
+        saved_ctx, self.loop_ctx = self.loop_ctx, ctx
+        try:
+            return thunk()
+        finally:
+            self.loop_ctx = saved_ctx
+
+    def finish_fuel(self, text, extb, rty):
+        exta = "".join(" x_%s" % e for e in self.externs)
+
+        def pars(m):
+            kk = int(m.group(1))
+            ps = [p for i, p in enumerate(self.loop_params[kk]) if i in self.loop_used[kk]]
+            return (" (" + " ".join(ps) + " : T)") if ps else ""
+        text = self.MARK.sub(lambda m: (" " + m.group(3)) if int(m.group(2)) in self.loop_used[int(m.group(1))] else "", text)
+        text = re.sub(r"@@PARS(\d+)@@", pars, text)
+        return text.replace("@@EXTB@@", extb).replace("@@EXTA@@", exta).replace("@@RTY@@", rty)
 
     def translate(self):
         env = {}
         binders = []
         self.written_cells = set()
+        if self.fuel_mode:
+            self.counter.update(self.FUEL_RESERVED)
         params = [c for c in self.node.get("inner", []) if c["kind"] == "ParmVarDecl"]
         body = [c for c in self.node["inner"] if c["kind"] == "CompoundStmt"][0]
         self._scan_written(body)
@@ -1004,6 +1266,16 @@ class Fn:
             tys[-1] = "bool"
         rty = "unit" if self.n_out == 0 else " * ".join(tys)
         extb = "".join(" (x_%s : %s)" % (e, " -> ".join(["T"] * (self.extern_ok[e] + 1))) for e in self.externs)
+        if self.fuel_mode:
+            sig["fuel"] = True
+            rty = "option (%s)" % rty
+            notes = "".join("(* %s_loop%d : live state %s *)\n" % (
+                self.name, kk, " ".join(p for i, p in enumerate(self.loop_params[kk]) if i in self.loop_used[kk]) or "-")
+                for kk in sorted(self.loop_params))
+            text = notes + "".join(f + "\n" for f in self.fix_texts) + \
+                "Definition gen_%s {T : Type} (O : NumOps T)%s (fuel : nat)%s : %s :=\n    %s." % (
+                    self.name, extb, (" (" + " ".join(allb) + " : T)") if allb else "", rty, term)
+            return self.finish_fuel(text, extb, rty), sig
         text = "Definition gen_%s {T : Type} (O : NumOps T)%s%s : %s :=\n    %s." % (
             self.name, extb, (" (" + " ".join(allb) + " : T)") if allb else "", rty, term)
         return text, sig
@@ -1043,12 +1315,15 @@ def translate_file(path, include, cfg, names, extra=(), sigs=None, externs=None,
         integer parameter p fixed to 3 as gen_f_p3"""
         if nm in sigs or nm in errs:
             return
-        spec, alen = {}, {}
+        spec, alen, fuel = {}, {}, False
         full = nm
         if "@" in nm:
             nm, sp = nm.split("@", 1)
             sp, _, ar = sp.partition(";")
             for kv in [x for x in sp.split(",") if x]:
+                if kv == "fuel":            # `f@fuel`: data-dependent loops as Fixpoints on fuel (version 4)
+                    fuel = True
+                    continue
                 kk, vv = kv.split("=")
                 spec[kk] = int(vv)
             alen = {}
@@ -1071,6 +1346,7 @@ def translate_file(path, include, cfg, names, extra=(), sigs=None, externs=None,
             fn.extern_ok = dict(externs or {})
             fn.spec = spec
             fn.alen = alen
+            fn.fuel_mode = fuel
             fn._real_size = real_size
             if spec or alen:
                 fn.name = nm + "".join("_%s%s" % (coq_ident(k_), str(v_).replace("-", "m")) for k_, v_ in spec.items())
@@ -1089,6 +1365,34 @@ def translate_file(path, include, cfg, names, extra=(), sigs=None, externs=None,
     for nm in names:
         ensure(nm)
     return "\n".join(out), sigs, errs
+
+
+def annotate_lines(node):
+    """give every node of a function the source line of its first location (clang omits "line" when it repeats)"""
+    cur = [None]
+
+    def see(l):
+        if isinstance(l, dict):
+            for key in ("spellingLoc", "expansionLoc"):
+                if key in l:
+                    see(l[key])
+            if "line" in l:
+                cur[0] = l["line"]
+
+    def walk(n):
+        if not isinstance(n, dict):
+            return
+        first = None
+        for part in (n.get("loc"), (n.get("range") or {}).get("begin")):
+            if isinstance(part, dict):
+                see(part)
+                if first is None and part:
+                    first = cur[0]
+        n["_line"] = first if first is not None else cur[0]
+        see((n.get("range") or {}).get("end"))
+        for c in n.get("inner", []):
+            walk(c)
+    walk(node)
 
 
 def called_functions(n, acc=None):
